@@ -18,7 +18,7 @@ from .. import env, scen, simdev, tlc, transports, wire
 from ..framework import main
 
 TICK = 0.01
-OPS = ['connect', 'connect_auth', 'shell', 'streaming_shell', 'exec_out', 'stat', 'list', 'pull', 'pull_cb', 'push', 'push_dir', 'push_rejected', 'reboot', 'root']
+OPS = ['connect', 'connect_auth', 'connect_auth_none', 'shell', 'streaming_shell', 'exec_out', 'stat', 'list', 'pull', 'pull_cb', 'push', 'push_dir', 'push_rejected', 'reboot', 'root']
 _DIR = {}
 
 
@@ -38,8 +38,8 @@ def push_dir_source():
     return _DIR['p']
 
 
-def make_stall(kind, dev):
-    state = {'start': None, 'buf': b''}
+def make_stall(kind, dev, rt=1.0):
+    state = {'start': None, 'buf': b'', 'rt': rt}
 
     def stall(core, n, timeout):
         if state['start'] is None:
@@ -65,6 +65,29 @@ def make_stall(kind, dev):
             core.clock.advance(tmo * 0.9)
             out, state['buf'] = state['buf'][:1], state['buf'][1:]
             return out
+        if kind == 'foreign_flood':
+            # packets of one other stream, thousands of them within the read timeout
+            core.clock.advance(0.002)
+            if not state['buf']:
+                state['buf'] = wire.frame('OKAY', 0x7777, 0x7776)
+            out, state['buf'] = state['buf'][:n], state['buf'][n:]
+            return out
+        if kind == 'trickle_big':
+            # one packet of 1 MiB that arrives 8 KiB at a time: every 64 KiB of it within the read timeout, the whole of it not by far
+            if 'hdr' not in state:
+                state['hdr'] = True
+                state['buf'] = wire.frame('WRTE', 0x7777, 0x7776, b'', length=1024 * 1024, check=0)      # (a megabyte of NULs: the checksum is right)
+                state['left'] = 1024 * 1024
+            if state['buf']:
+                out, state['buf'] = state['buf'][:n], state['buf'][n:]
+                return out
+            if state['left'] <= 0:
+                core.clock.advance(tmo)                       # the packet is through (it was for another stream): silence from here on
+                raise transports.SimTimeout('read timed out')
+            core.clock.advance(max(state['rt'], 0.0) * 0.12 + 0.001)
+            k_ = min(n, 8192, state['left'])
+            state['left'] -= k_
+            return b'\x00' * k_
         if kind == 'trickle':
             if not state['buf']:
                 state['buf'] = wire.frame('WRTE', 0x7777, 0x7776, b'', length=1024 * 1024, check=1) + b'\x00' * 4096
@@ -101,12 +124,12 @@ def run_case(mode, op, j, kind, tt, rt, total, seed, healthy=None, net='mem'):
         # the device rejects the file right after SEND (its FAIL is on its way) and then stops acknowledging: a push of many WRITEs
         dev.service_for = lambda dest, d: (simdev.SyncService(d, plan=simdev.SyncFailPlan('SEND', reason=b'read-only')) if dest.rstrip(b'\0') == b'sync:' else None)
         dev.eager = True          # the FAIL goes on the wire as soon as the device has produced it (right behind the OKAY of the first WRITE)
-    if op == 'connect_auth':
+    if op in ('connect_auth', 'connect_auth_none'):
         dev.auth = simdev.AuthPolicy(mode='auth', maxdata=4096, accept_sig=lambda i, s, t: False, pubkey='accept')
     sess = env.Session(mode, dev, tick=TICK, default_transport_timeout_s=None, net=net)
     core = sess.core
     core.max_calls = 6000
-    stall, state = make_stall(kind, dev)
+    stall, state = make_stall(kind, dev, min(rt, total) if (total is not None and op in ('shell', 'exec_out', 'root', 'reboot')) else rt)
     kw = {}
     if tt is not None:
         kw['transport_timeout_s'] = tt
@@ -131,6 +154,8 @@ def run_case(mode, op, j, kind, tt, rt, total, seed, healthy=None, net='mem'):
             o = sess.call('connect', **kw)
         elif op == 'connect_auth':
             o = sess.call('connect', rsa_keys=[K()], auth_timeout_s=2.0, **kw)
+        elif op == 'connect_auth_none':
+            o = sess.call('connect', rsa_keys=[K()], auth_timeout_s=None, **kw)      # wait for the user as long as it takes - but not for a device that only sends other things
         elif op in ('shell', 'exec_out'):
             o = sess.call(op, 'x', decode=False, timeout_s=total, **kw)
         elif op == 'streaming_shell':
@@ -219,7 +244,7 @@ def body(ctx):
     grid_t = [None, -1, 0, 0.5, 2, 1e-6, 1e9]          # also: next to nothing, and practically for ever (time arithmetic with very large values)
     grid_r = [-1, 0, 1, 3, 1e-6]          # (a read timeout of 1e9 s is honoured by waiting: the call budget of the harness ends first, not the library)
     grid_total = [None, -1, 0, 2]
-    kinds = ['raise', 'empty', 'trickle', 'foreign', 'unexpected', 'trickle_huge', 'huge_then_empty']
+    kinds = ['raise', 'empty', 'trickle', 'foreign', 'unexpected', 'trickle_huge', 'huge_then_empty', 'foreign_flood', 'trickle_big']
     traces, meta = [], []
     for mode in ('sync', 'async'):
         for op in OPS:
@@ -239,6 +264,10 @@ def body(ctx):
                 if ctx.quick:
                     rng.shuffle(extra)
                     extra = extra[:2]
+                if not op.startswith('connect') and j >= 1:
+                    extra += [('foreign_flood', (None, 0.5)[j % 2], 30, None)]          # thousands of packets of one other stream within the read timeout
+                if op == 'connect_auth_none':
+                    extra += [(kd, tt_, rt_, None) for kd in ('foreign', 'foreign_clse', 'empty') for tt_ in (None, 0.5) for rt_ in (1, 3)]
                 if op == 'push_rejected':
                     # the device stops acknowledging after its FAIL is on the wire: end-of-stream reads / foreign traffic, real timeouts
                     extra += [(kd, tt_, rt_, None) for kd in ('empty', 'foreign') for tt_ in (None, 0.5) for rt_ in (1, 3)]
